@@ -493,6 +493,9 @@ def run(loader, R, tier):
     R.floor("divisions in number classes", ndiv, 8)
     R.floor("two-argument rational constructions", nctor, 6)
 
+    # ---------------------------------------------------------------- R5.5
+    truncating_ops(prog, R)
+
     # ---------------------------------------------------------------- R5.4
     R.rule("R5.4", "Integer and Rational overloads of the Complex arithmetic "
                    "members have the same operator signature")
@@ -592,6 +595,81 @@ def is_one(e):
     if e.get("k") in ("ctor", "cast") and len(e.get("a", ())) == 1:
         return is_one(e["a"][0])
     return False
+
+
+def truncating_ops(prog, R):
+    """R5.5: the built-in % (and / used as a quotient for %-style case
+    analysis) truncates towards zero.  In the exact number classes a residue
+    of a possibly negative machine integer taken from an Integer (as_int())
+    must come from the floored helpers (mod_f, fdiv_*), or the operand must
+    be known non-negative."""
+    R.rule("R5.5", "no built-in % on a signed value taken from an Integer "
+                   "in the exact number classes (floored helpers only)")
+    SIGNED = ("long", "int", "long long", "short", "signed char")
+    nsite = 0
+    ncontrol = 0
+    for u, f in sorted(prog.functions.items(), key=lambda kv: kv[1]["qn"]):
+        control = f["qn"].startswith("verif_positive::")
+        if not f.get("body") or f.get("dependent") or not (
+                control or f.get("cls") in NUMCLS):
+            continue
+        # locals initialised from as_int()
+        from_int = set()
+        for n in walk(f["body"]):
+            if n.get("k") == "decl":
+                for v in n.get("v", ()):
+                    if v.get("i") is not None and any(
+                            y.get("k") == "mcall" and y.get("n") == "as_int"
+                            for y in walk(v["i"])):
+                        from_int.add(v["n"])
+
+        def cb(n, guards, line, f=f, control=control, from_int=from_int):
+            nonlocal nsite, ncontrol
+            if not (n.get("k") in ("bin", "op") and n.get("op") in (
+                    "%", "%=") and len(n.get("a", ())) == 2):
+                return
+            lhs = n["a"][0]
+            tainted = any(
+                (y.get("k") == "mcall" and y.get("n") == "as_int")
+                or (y.get("k") == "ref" and y.get("n") in from_int)
+                for y in walk(lhs))
+            signed = any(strip_type(y.get("t") or "") in SIGNED
+                         for y in walk(lhs) if y.get("k") == "ref") or any(
+                y.get("k") == "mcall" and y.get("n") == "as_int"
+                for y in walk(lhs))
+            if not (tainted and signed):
+                return
+            nonneg = False
+            for g in sym.flatten_guards(guards):
+                if g[0] == "case":
+                    continue
+                c, pol = g
+                if c.get("k") in ("bin", "op") and c.get("op") in (
+                        ">=", ">", "<", "<=") and show(lhs)[:20] in show(c):
+                    t = show(c).replace(" ", "")
+                    if pol and (">=0" in t or ">0" in t):
+                        nonneg = True
+                    if (not pol) and ("<0" in t):
+                        nonneg = True
+            key = "%s@%s" % (short(f["qn"]), n.get("l"))
+            if control:
+                if not nonneg:
+                    ncontrol += 1
+                return
+            nsite += 1
+            R.instance("R5.5", key, sample={"expr": show(n)[:60],
+                                            "operand_nonnegative": nonneg})
+            if not nonneg:
+                R.violation(
+                    "R5.5", short(f["qn"]), prog.loc(f, n.get("l")),
+                    "%s computes `%s` with the built-in %%: for a negative "
+                    "operand the result is negative (truncation towards "
+                    "zero), so a case analysis on the residue picks the "
+                    "wrong class; the floored helper mod_f gives the "
+                    "residue in [0, m)" % (short(f["qn"]), show(n)[:50]))
+        sym.visit_guarded(f["body"], cb)
+    R.floor("positive control (verif_positive::residue_of_exponent) "
+            "recognised", ncontrol, 1)
 
 
 MANIFEST = dict(
